@@ -357,6 +357,13 @@ pub fn record_token(sector: u64, extent: &[u8]) -> u16 {
     fold16(c)
 }
 
+/// The 16-bit fold before 0 is mapped to 1 (only to construct records whose fold is exactly 0).
+pub fn record_fold_raw(sector: u64, extent: &[u8]) -> u16 {
+    let mut c = crc32c(0, &sector.to_le_bytes());
+    c = crc32c(crc32c(crc32c(c, &extent[..2]), &[0, 0]), &extent[4..]);
+    ((c >> 16) ^ (c & 0xFFFF)) as u16
+}
+
 /// Padded extent as the store writes it. The token is stamped for `sector` when
 /// `version >= 3` (and, like the store, only if the key is non-empty and the header
 /// fits in one block); otherwise it stays 0.
